@@ -367,6 +367,14 @@ var c01Skeletons = []struct {
 	{"a++ + b", func(e c01Env) rv { return rI(e.a + 1 + e.b) }},
 	{"a-- * b", func(e c01Env) rv { return rI((e.a - 1) * e.b) }},
 	{"-a++", func(e c01Env) rv { return rI(-(e.a + 1)) }},
+	{"-2++", func(e c01Env) rv { return rI(-3) }},
+	{"-2--", func(e c01Env) rv { return rI(-1) }},
+	{"a * -2++", func(e c01Env) rv { return rI(e.a * -3) }},
+	{"-7 % 4 + a", func(e c01Env) rv { return rI(-3 + e.a) }},
+	{"!true ? a : b", func(e c01Env) rv { return rI(e.b) }},
+	{"a++ + a", func(e c01Env) rv { return rI(e.a + 1 + e.a) }},
+	{"a-- * a--", func(e c01Env) rv { return rI((e.a - 1) * (e.a - 1)) }},
+	{"xs[0]++ + xs[0]", func(e c01Env) rv { return rI(e.x0 + 1 + e.x0) }},
 	{"(a + b) * c", func(e c01Env) rv { return rI((e.a + e.b) * e.c) }},
 	{"a * (b + c)", func(e c01Env) rv { return rI(e.a * (e.b + e.c)) }},
 	{"((a)) + (b)", func(e c01Env) rv { return rI(e.a + e.b) }},
@@ -471,7 +479,20 @@ func HarnessC01Float() {
 	rF := func(f float64) rv { return rv{kind: rFloat, f: f} }
 	var src string
 	var want rv
-	switch vChoice("shape", 8) {
+	switch vChoice("shape", 10) {
+	case 8, 9:
+		// a postfix operator yields a new value and leaves the variable (or element) as it was
+		f := []float64{2.5, 0.5, -1.5, 4.5}[vChoice("f", 4)]
+		data["f"] = f
+		data["fs"] = []any{f}
+		dir := vChoice("dir", 2)
+		op := []string{"++", "--"}[dir]
+		d := []float64{1, -1}[dir]
+		if vChoice("element", 2) == 0 {
+			src, want = "f"+op+" + f", rF(f+d+f)
+		} else {
+			src, want = "fs[0]"+op+" + fs[0]", rF(f+d+f)
+		}
 	case 6, 7:
 		// postfix ++/-- on a float: formatting is involved in the implementation, so the operand comes from a
 		// boundary set instead of being symbolic
